@@ -704,7 +704,8 @@ def monitor_conn(step, o):
             hv = ver[0] * 10 + ver[1]
             late = sorted(set(t for t in all_tags(raw) if tag_version(t) > hv))
             if late:
-                fails.append(("c16:e2e-later-field-sent", "frame %d: the response states version %d.%d and carries the field(s) %s, "
+                fails.append(("c16:e2e-later-field-sent:tag-%06X:under-%d" % (late[0], hv),
+                              "frame %d: the response states version %d.%d and carries the field(s) %s, "
                               "introduced in %s" % (i, ver[0], ver[1], ["0x%06X" % t for t in late[:4]],
                                                     sorted(set(tag_version(t) for t in late)))))
         who = established(step["cert"], step["tls"])
